@@ -50,7 +50,7 @@ ASSUMPTIONS = [
 @st.composite
 def _cases(draw, tier):
     big = tier == "thorough"
-    filters = draw(gen.filter_configs(max_len=3))
+    filters = draw(gen.filter_configs(max_len=3, custom=True))
     inst = draw(
         gen.instances(
             max_jobs=6 if big else 5,
@@ -93,7 +93,7 @@ def strategy(tier):
     return _cases(tier)
 
 
-def spec(m, inst, avail, now, flexible):
+def spec(m, inst, avail, now, flexible, monotone_clock=True):
     """Expected feature values for entities with unscheduled work.
     Returns {kind: {ftype: {index: value}}} (plus extra clauses)."""
     d, mach = inst["durations"], inst["machines"]
@@ -123,9 +123,12 @@ def spec(m, inst, avail, now, flexible):
         out["is_completed"]["operations"][i] = 0
     for op in m.scheduled():
         out["is_scheduled"]["operations"][oid[op]] = 1
-    done = set(m.completed(now))
-    for op in m.all_ops():
-        out["is_completed"]["operations"][oid[op]] = 1 if op in done else 0
+    if monotone_clock:
+        # exact only when the clock cannot go backwards (no filter, or
+        # built-in filters with positive durations - C06's domain)
+        done = set(m.completed(now))
+        for op in m.all_ops():
+            out["is_completed"]["operations"][oid[op]] = 1 if op in done else 0
     for j in jobs_left:
         out["is_ready"]["jobs"][j] = 1 if any(a[0] == j for a in avail) else 0
         out["earliest_start_time"]["jobs"][j] = est[(j, m.next[j])] - now
@@ -213,7 +216,8 @@ def check_case(case, ctx):
         if avail is None:  # cannot happen: filters imply positive durations
             avail = [fp.jp(o) for o in d.available_operations()]
         now = m.min_start(avail)
-        want = spec(m, inst, avail, now, flexible)
+        custom = bool(filters) and any(n.startswith("custom_") for n in filters)
+        want = spec(m, inst, avail, now, flexible, monotone_clock=not custom)
         for o, cfg in zip(observers, case["observers"]):
             kind = cfg[0]
             for ft, a in o.features.items():
